@@ -137,9 +137,9 @@ def gen_cases(rng, tier):
     import re as _re
     mlim = _re.search(r"MAX_MARSHAL_STACK_DEPTH\s*:\s*\w+\s*=\s*(\d+)", open(os.path.join(REPO, "src/handlers/pyc.rs")).read())
     limit = int(mlim.group(1)) if mlim else 1000
-    for ver in ((3, 8), (3, 12)):
+    for ver in (((3, 12),) if tier == "quick" else ((3, 8), (3, 12))):
         lay = pm.code_layout(ver)
-        for levels in sorted({max(1, limit - 12), max(1, limit - 2), limit + 2, 2 * limit}):
+        for levels in sorted({max(1, limit - 2), limit + 2} | (set() if tier == "quick" else {max(1, limit - 12), 2 * limit})):
             inner = b"N"
             for _ in range(levels):                       # built as bytes: the encoder of lib/pymarshal.py is recursive
                 k, body = 0, b"c"
@@ -198,8 +198,10 @@ def tree_runs(ctx, rng, release):
             bad["bad/deep.pyc"] = pm.header((3, 12)) + b")\x01" * 100000 + b"N"
             # the deepest nesting the source still accepts, with the largest frames of the reader, on the real 8 MiB main stack
             lim = depth_limit()
-            bad["bad/nested-code-a.cpython-312.pyc"] = nested_code((3, 12), max(1, lim - 2))
-            bad["bad/nested-code-b.cpython-38.pyc"] = nested_code((3, 8), max(1, lim - 12))
+            if not jobs or release:
+                bad["bad/nested-code-a.cpython-312.pyc"] = nested_code((3, 12), max(1, lim - 2))
+            if release:                                  # the second shape only in the thorough tier (hashing a chain this deep is quadratic)
+                bad["bad/nested-code-b.cpython-38.pyc"] = nested_code((3, 8), max(1, lim - 12))
             bad["bad/empty.zip"] = b""
             bad["bad/junk.zip"] = b"PK\x03\x04" + rng.randbytes(200)
             bad["bad/junk.jar"] = rng.randbytes(300)
